@@ -27,7 +27,8 @@ RULE = ("units_G (exhaustive): all 7 x 15 x 17 = 1785 (length, time, mass) tripl
         "inputs), unit norm, lengths/dot products, exact quaternion algebra (rationals) for product/inverse/rotate, "
         "mpmath matrices for the constructors, rotated particles/simulations (energy, |L|, L as a vector, pair "
         "distances).  frames: random systems with first/second-order (incl. test-particle) variational "
-        "configurations: move_to_com against exact rational second-order Taylor arithmetic, move_to_hel, "
+        "configurations and N_active in {-1, 1..N} (massive particles beyond it, both testparticle types): move_to_com "
+        "against exact rational second-order Taylor arithmetic over all real particles, move_to_hel, "
         "multiply/*, /, +, - bitwise.  Non-trivial: units - every case; rotations - degenerate or near-degenerate "
         "construction or a composition; frames - variational particles present or an arithmetic operator; distinct by "
         "case hash.")
@@ -44,7 +45,7 @@ CLASSES = ["units_G/kg_based", "units_G/gm_based", "units_convert/roundtrip", "u
            "rotations/from_to_antiparallel", "rotations/from_to_near_antiparallel", "rotations/from_to_parallel",
            "rotations/axis_angle_special", "rotations/to_new_axes_nonorth", "rotations/to_new_axes_default",
            "rotations/orbit", "rotations/compose", "rotations/sim", "frames/com_var1", "frames/com_var2",
-           "frames/com_testparticle", "frames/hel", "frames/arith"]
+           "frames/com_testparticle", "frames/com_massive_beyond_N_active", "frames/hel", "frames/arith"]
 
 
 # ---------------------------------------------------------------------------------------------------------
@@ -750,7 +751,11 @@ def frame_case(draw):
         for _ in range(draw(st.integers(0, 2))):
             cfgs.append({"order": 2, "tp": -1, "a": draw(st.integers(0, nfirst - 1)), "b": draw(st.integers(0, nfirst - 1)),
                          "data": draw(st.lists(varp, min_size=N, max_size=N))})
-    return {"bodies": bodies, "cfgs": cfgs, "op": draw(st.sampled_from(["com", "com", "com", "hel", "arith"])),
+    # N_active / testparticle_type: the frame operations are documented for *all* particles; particles beyond N_active
+    # may carry mass (semi-active bodies, type 1, or massive type-0 test particles)
+    nact = draw(st.one_of(st.just(-1), st.just(-1), st.integers(1, N)))
+    return {"bodies": bodies, "cfgs": cfgs, "N_active": nact, "tptype": draw(st.sampled_from([0, 1])),
+            "op": draw(st.sampled_from(["com", "com", "com", "hel", "arith"])),
             "s1": draw(st.one_of(S.floats(-3.0, 3.0), st.sampled_from([2.0, 0.5, -1.0, 3.0]))),
             "s2": draw(st.one_of(S.floats(-3.0, 3.0), st.sampled_from([2.0, 0.1]))),
             "other": draw(st.lists(body, min_size=N, max_size=N)), "G": draw(st.sampled_from([1.0, 39.47]))}
@@ -765,6 +770,9 @@ def build_frame_sim(c, bodies=None):
     sim.G = c["G"]
     for b in (bodies or c["bodies"]):
         sim.add(**b)
+    if c.get("N_active", -1) != -1:
+        sim.N_active = c["N_active"]
+        sim.testparticle_type = c.get("tptype", 0)
     idx = []
     vs = []
     for cf in c["cfgs"]:
@@ -873,6 +881,9 @@ def run_frames(c, ctx):
         ctx.nontrivial()
         return
     # ---- move_to_com
+    na = c.get("N_active", -1)
+    if na != -1 and any(c["bodies"][i]["m"] != 0.0 for i in range(na, N)):
+        ctx.cls("com_massive_beyond_N_active")
     sim.move_to_com()
     after = rb.pfloat(sim)
     masses = [before[i][6] for i in range(N)]
